@@ -76,6 +76,8 @@ def setup():
     from typhon.files.handlers.common import FileHandler, FileInfo
     _T.update(fsmod=fsmod, FileSet=FileSet, FileHandler=FileHandler,
               FileInfo=FileInfo)
+    from sim.seams import typhon_state
+    _T["state"] = typhon_state()
 
 
 class SimCrash(BaseException):
@@ -937,6 +939,7 @@ def _diff(exp, got):
 
 # ------------------------------------------------------------------- the run
 def run_one(tape, only=None):
+    _T["state"].restore()      # each run models a fresh interpreter
     res = new_result()
     w = gen_workload(tape)
     wd = digest_of(w)
